@@ -725,7 +725,7 @@ package netty
 //@ func NewAsyncWriteChannel$1
 //@   requires ctx != nil && writeQueueSize <= 1<<40
 //@   ensures built_as_configured: is(result, *channel) && implies(writeQueueSize > 0, as(result, *channel).writeQueue != nil && cap(as(result, *channel).writeQueue) == writeQueueSize) && implies(writeQueueSize <= 0, as(result, *channel).writeQueue == nil) && as(result, *channel).untilWrite == untilWrite
-//@ property C01 C02 C05 C06 C10 C13 C18
+//@ property C01 C02 C05 C06 C09 C10 C12 C13 C14 C18
 //@ func newChannelWith
 //@   requires ctx != nil && writeQueueSize <= 1<<40
 //@   ensures is(result, *channel) && fresh(as(result, *channel)) && as(result, *channel) != nil
@@ -759,7 +759,7 @@ package netty
 
 // ReadFrom streams a reader in 1024-byte chunks, each handed to write1 exactly once, in order (C14).
 // (Each chunk is a separate low-level write: that is the known C09 finding for reader-typed messages.)
-//@ property C04 C08 C09 C10 C11 C12 C14
+//@ property C01 C02 C04 C08 C09 C10 C11 C12 C14
 //@ func (*channel).ReadFrom
 //@   requires chinv(c) && implies(c.writeQueue != nil, cap(c.writeQueue) >= 1) && r != nil && rwf(r)
 //@   ensures closed_rejects@C11: implies(old(closedState(c)), err != nil && n == 0 && count("netty.channel.write1") == 0 && count("io.Reader.Read") == 0)
